@@ -8,5 +8,5 @@ MCSpec == MCInit /\ [][MCNext]_<<vars, hist>>
 Ticks == Cardinality({i \in 1..Len(hist) : hist[i].op = "tick"})
 Bound == Ticks <= 1 /\ Len(made) <= 3
 Emit == Len(hist) = Depth => PrintT(ToJson(hist))
-View == <<store, lastT, clock, made, Len(hist)>>
+View == <<store, lastT, clock, made, sb, Len(hist)>>
 =============================================================================
